@@ -108,7 +108,7 @@ impl Check for C05 {
         "gamma"
     }
     fn cases(&self, tier: Tier) -> usize {
-        tier.pick(40_000, 1_500_000)
+        tier.pick(800_000, 12_000_000)
     }
     fn strategy(&self, _tier: Tier) -> BoxedStrategy<Case> {
         let c = cfg();
